@@ -78,6 +78,23 @@ func rotations(c Case) []int {
 	for _, x := range c.Rotations {
 		r = append(r, ((x%n)+n)%n)
 	}
+	// every rotation that puts the stored origin inside, or within two bases of, a recognition-site occurrence or
+	// the start of its cut: the rotations at which a search over copies of the sequence meets its boundary cases
+	_, L := refclone.Digest(c.Seq, true, c.Enzyme)
+	seen := map[int]bool{}
+	for _, x := range r {
+		seen[x] = true
+	}
+	for _, site := range L.Sites {
+		for _, at := range []int{site.SiteStart, site.Start} {
+			for d := -2; d <= len(c.Enzyme.Site)+2; d++ {
+				if x := ((at+d)%n + n) % n; !seen[x] {
+					seen[x] = true
+					r = append(r, x)
+				}
+			}
+		}
+	}
 	return r
 }
 
